@@ -354,6 +354,12 @@ impl<'r> Gen<'r> {
             }
             return s;
         }
+        if self.rng.chance(1, 300) {
+            // a long string (thresholds around 1000 characters / 1 KiB / 4 KiB)
+            let n = *self.rng.pick(&[255usize, 1000, 1024, 1025, 4097]);
+            let unit: Vec<char> = if self.rng.chance(1, 2) { vec!['a'] } else { vec!['é', ' ', 'x', '\n', '"', '日'] };
+            return (0..n).map(|i| unit[i % unit.len()]).collect();
+        }
         if self.rng.chance(self.cfg.p_random_str, 100) {
             let n = self.rng.below(12);
             (0..n).map(|_| *self.rng.pick(STR_CHARS)).collect()
@@ -529,15 +535,18 @@ impl<'r> Gen<'r> {
                 }
             }
             Ty::Seq(t) => {
-                let n = *self.rng.pick(&[0usize, 1, 1, 2, 2, 3, 4]);
+                // occasionally a long sequence (thresholds: 10, 16/17, 32/33, 100, 256/257 elements)
+                let n = if t.count_nodes() <= 3 && self.rng.chance(1, 60) { *self.rng.pick(&[10usize, 16, 17, 33, 100, 257]) } else { *self.rng.pick(&[0usize, 1, 1, 2, 2, 3, 4]) };
                 Val::Seq((0..n).map(|_| self.val(t)).collect())
             }
             Ty::Tuple(ts) | Ty::TupleStruct(_, ts) => Val::Seq(ts.iter().map(|t| self.val(t)).collect()),
             Ty::Map(kt, vt) => {
-                let n = *self.rng.pick(&[0usize, 1, 2, 2, 3, 4]);
+                let big = vt.count_nodes() <= 3 && matches!(kt, KeyTy::Str | KeyTy::NewtypeStr(_)) && self.rng.chance(1, 80);
+                let n = if big { *self.rng.pick(&[16usize, 33, 101, 260]) } else { *self.rng.pick(&[0usize, 1, 2, 2, 3, 4]) };
                 let mut kvs: Vec<(Val, Val)> = Vec::new();
-                for _ in 0..n {
+                for i in 0..n {
                     let k = match kt {
+                        KeyTy::Str | KeyTy::NewtypeStr(_) | KeyTy::SpannedStr if big => Val::Str(format!("k{}", (i * 7919) % 1000)),
                         KeyTy::Str | KeyTy::NewtypeStr(_) | KeyTy::SpannedStr => {
                             let used: Vec<String> = kvs.iter().filter_map(|(k, _)| if let Val::Str(s) = k { Some(s.clone()) } else { None }).collect();
                             Val::Str(self.name(&used))
